@@ -380,6 +380,11 @@ def patched(tmpl, rid, htlc_id, amount, total, exp, rel):
     q = json.loads(json.dumps(tmpl))
     q["htlc"]["id"] = htlc_id; q["htlc"]["amount_msat"] = amount; q["htlc"]["cltv_expiry"] = exp; q["htlc"]["cltv_expiry_relative"] = rel
     q["onion"]["forward_msat"] = amount; q["onion"]["total_msat"] = total; q["onion"]["outgoing_cltv_value"] = exp
+    if htlc_id % 2 == 1:
+        # members this plugin does not know (later lightningd versions add some, e.g. extra_tlvs): to be ignored
+        q["htlc"]["extra_tlvs"] = "fe0001000101"
+        q["onion"]["next_member"] = {"n": 1}
+        q["peer_note"] = "x"
     return {"jsonrpc": "2.0", "id": rid, "method": "htlc_accepted", "params": q}
 
 def answer_of(pl, rid, timeout):
